@@ -1964,7 +1964,7 @@ class Ev:
         if isinstance(recv, Sym) and recv.tag and recv.tag[0] == "iter" and m == "eq" and len(args) == 1 and isinstance(args[0], Sym) and args[0].tag[0] == "iter":
             return Sym("arr_eq", _srt([recv.tag[1], args[0].tag[1]]))
         if isinstance(recv, Sym) and m == "len" and not args:
-            return Poly.atom(("len", recv.key(), None))
+            return Poly.atom(("len", len_base(recv.key()), None))
         if isinstance(recv, Sym) and recv.tag and recv.tag[0] == "normal01?" and m in ("unwrap", "expect"):
             return Sym("normal01")
         if isinstance(recv, Sym) and recv.tag and recv.tag[0] == "normal01":
@@ -2103,6 +2103,15 @@ def canon_seq(seq):
         a, b = poly_from_key(src[2]), poly_from_key(src[3])
         return Seq(Sym("range", Poly.const(0).key(), (b - a).key()), lambda idx, f0=seq.fn, a=a: f0(idx + a), seq.enumerated)
     return seq
+
+
+def len_base(k):
+    """The container whose length `k` has: sorting in place keeps the number of entries, and the keys / values of a map are as many as its entries' source."""
+    if isinstance(k, tuple) and k[:2] == ("sym", "mut") and len(k) == 5 and k[2] in ("sort", "sort_keys", "sort_unstable", "reverse", "sort_by_key", "sort_by"):
+        return len_base(k[3])
+    if isinstance(k, tuple) and k[:2] == ("sym", "m") and len(k) == 5 and k[2] in ("keys", "values", "iter") and not k[4]:
+        return ("sym", "m", k[2], len_base(k[3]), ())
+    return k
 
 
 def quant(kind, src, body):
